@@ -120,3 +120,47 @@ Fixpoint trusted_part {A} (ops : list op) (xs : list A) : list A :=
   | o :: ops', x :: xs' => if is_untrusted_op o then trusted_part ops' xs' else x :: trusted_part ops' xs'
   | _, _ => []
   end.
+
+(* C12 (gating): an untrusted connection's inv / tx messages are processed only after it was verified,
+   and it is verified only by a headers message whose first header is on the node's chain no more
+   than DELTA + 1 below the tip and whose headers link to each other - judged by the monitor itself
+   from the chain in the digest.
+   302 an inv / tx of an unverified untrusted connection was processed (or one of a verified one dropped)
+   303 the connection's verified flag after a headers message is not what the rule says *)
+Fixpoint index_of (id : Z) (c : list Z) (i : Z) : option Z :=
+  match c with
+  | [] => None
+  | x :: c' => if x =? id then Some i else index_of id c' (i + 1)
+  end.
+
+Definition verify_rule (DELTA : Z) (c : list Z) (hs : list hdr) : bool :=
+  match hs with
+  | [] => false
+  | h :: rest =>
+      match index_of (fst h) c 0 with
+      | None => false
+      | Some ht => if ht <? (zlen c - 1) - DELTA - 1 then false else linked_from (fst h) rest
+      end
+  end.
+
+Fixpoint gate_from (DELTA : Z) (ver : bool) (i : Z) (ops : list op) (tr : list obs) : option (Z * obs) :=
+  match ops, tr with
+  | o :: ops', ob :: tr' =>
+      match parse_obs ob with
+      | None => Some (i, [399])
+      | Some d =>
+          match o with
+          | OUHeaders hs =>
+              let v' := ver || verify_rule DELTA (d_chain d) hs in
+              if zeq (d_payload d) [b2z v'] then gate_from DELTA v' (i + 1) ops' tr' else Some (i, [303])
+          | OUTx _ | OUInv _ =>
+              if zeq (d_payload d) [b2z ver] then gate_from DELTA ver (i + 1) ops' tr' else Some (i, [302])
+          | ORestartNode => gate_from DELTA false (i + 1) ops' tr'
+          | _ => gate_from DELTA ver (i + 1) ops' tr'
+          end
+      end
+  | [], [] => None
+  | _, _ => Some (i, [397])
+  end.
+
+Definition c12_gate_monitor (DELTA : Z) : checker op := fun ops tr => gate_from DELTA false 0 ops tr.
